@@ -574,15 +574,22 @@ pub fn gen_c13(out: &mut Out, rng: &mut Rng, thorough: bool) {
         // reply cut at every offset by end of stream / read errors, under three ambient errno states
         for j in 0..=reply.len() {
             for (fi, fault) in ["e", "xk1", "xk2", "xot"].iter().enumerate() {
-                let errno = [0, 2, 13][(j + fi) % 3];
-                let pre = &reply[..j];
-                let chunks = if pre.is_empty() {
-                    String::new()
+                // every ambient errno state at the frame boundary, a rotating one inside the frame
+                let errnos: Vec<i32> = if j == 0 || j == reply.len() {
+                    vec![0, 2, 13, 20, 104]
                 } else {
-                    let parts = rng.composition(pre.len());
-                    format!("{},", chunks_tok(&chunk(pre, &parts)))
+                    vec![[0, 2, 13][(j + fi) % 3]]
                 };
-                monitor_line(out, &format!("{head} errno={errno} | call {rq} r={chunks}{fault}"));
+                for errno in errnos {
+                    let pre = &reply[..j];
+                    let chunks = if pre.is_empty() {
+                        String::new()
+                    } else {
+                        let parts = rng.composition(pre.len());
+                        format!("{},", chunks_tok(&chunk(pre, &parts)))
+                    };
+                    monitor_line(out, &format!("{head} errno={errno} | call {rq} r={chunks}{fault}"));
+                }
             }
         }
         // request cut at every offset by write errors / zero-length writes
